@@ -13,7 +13,7 @@
 static pika::counting_semaphore<>* sem;
 static long permits;                         // ghost ledger: initial + released - acquired
 static int in_acquire[VERIF_MAX_SLOTS];      // ghost: thread is inside a blocking acquire
-static int acquired_total, released_total, initial;
+static int acquired_total, released_total, released_done, initial;
 
 extern "C" void csem_init()
 {
@@ -56,7 +56,10 @@ static void op()
             verif_assert(permits >= 0, "timed acquire true only if a permit existed");
         }
         else
-            verif_assert(verif_deadline_passed[t], "timed acquire returns false only after its deadline (a permit released before the deadline is consumed)");
+            // false before the deadline is acceptable only if no fully released permit was left for it (a stale
+            // wake-up may end the wait early, as in the real runtime; it must not make the call miss a permit)
+            verif_assert(verif_deadline_passed[t] || initial + released_done - acquired_total <= 0,
+                "timed acquire returns false only after its deadline or when no released permit is available (a permit released before the deadline is consumed)");
     }
     else
     {
@@ -64,6 +67,7 @@ static void op()
         permits += n;
         released_total += n;
         sem->release(n);
+        released_done += n;
     }
 }
 static void worker()
